@@ -1054,8 +1054,8 @@ def codec_cases(rng, n):
 
 def gen_cases(seed, tier):
     rng = random.Random(seed * 1000003 + 7)
-    n_stream = {'quick': 2600, 'thorough': 20000, 'search': 30000}[tier]
-    n_codec = {'quick': 1400, 'thorough': 10000, 'search': 5000}[tier]
+    n_stream = {'quick': 2600, 'thorough': 14000, 'search': 30000}[tier]
+    n_codec = {'quick': 1400, 'thorough': 6000, 'search': 5000}[tier]
     cases = [stream_case(rng) for _ in range(n_stream)]
     cases.extend(codec_cases(rng, n_codec))
     for k in range({'quick': 12}.get(tier, 60)):
